@@ -121,6 +121,19 @@ pub fn run(ctx: &Ctx) -> i32 {
             check_case(ctx, st, tcs, Settings::new(f | extra[i / look.len()]));
         });
     }
+    // whole test cases that are one long run of a single grapheme or short unit (64..300 repeats)
+    {
+        let units = ["a", "-", "ab", "\u{1f4a9}", "xyz"];
+        let lens = [63usize, 64, 65, 100, 128, 129, 250];
+        par_for(&ctx.run, units.len() * lens.len() * 3, |i, st| {
+            let u = units[i % units.len()];
+            let n = lens[(i / units.len()) % lens.len()];
+            let k = i / (units.len() * lens.len());
+            let tcs = if k == 0 { vec![u.repeat(n)] } else { vec![u.repeat(n), format!("{}z{}", u.repeat(n / 3), u.repeat(n / 3))] };
+            st.count("long_run_inputs");
+            check_case(ctx, st, &tcs, Settings::with(REP, 1 + k as u32, 1 + (k as u32 % 2)));
+        });
+    }
     // random repeat-rich families x other settings
     let n = if ctx.thorough { 300_000 } else { 12_000 };
     let names = ["ab", "abc", "meta", "graph", "astral", "classes", "case", "ws", "clusters", "tokens"];
